@@ -160,26 +160,44 @@ def request(case):
     return {"names": {"pre": case["pre"], "n": case["n"], "outs": case["outs"], "start": 0}}
 
 
-def compare(case, obs, m):
-    """model vs implementation; -> list of differences"""
+def _canon(names, table=None):
+    """names -> first-occurrence indices (a harmless change of the *spelling* of generated names is not a difference;
+    a collision or another order is)."""
+    table = {} if table is None else table
+    return [table.setdefault(nm, len(table)) for nm in names]
+
+
+def compare(case, obs, m, notes=None):
+    """model vs implementation; -> list of differences. Generated names are compared up to a consistent renaming;
+    whether the spelling is the model's `f"{prefix}{i}"` is recorded in `notes` (evidence), not a difference."""
     if m is None or "error" in m:
         return [f"driver: {m}"]
     d = []
+    notes = {} if notes is None else notes
     pre, n, outs = case["pre"], case["n"], case["outs"]
     if "A_names" in obs:
         if obs["A_names"] != m["names"]:
-            d.append(f"enum_arguments names {obs['A_names'][:14]}… != model {m['names'][:14]}…")
+            notes["enum_arguments spelling differs"] = notes.get("enum_arguments spelling differs", 0) + 1
+        if _canon(obs["A_names"]) != _canon(m["names"]):
+            d.append(f"enum_arguments names collide / differ in number: {obs['A_names'][:14]}… vs model {m['names'][:14]}…")
         if obs["A_order"] != m["args"]:
             d.append(f"enum_arguments order {obs['A_order'][:14]}… != model {m['args'][:14]}…")
     want_named = [[f"{pre}{i}", o] for i, o in enumerate(outs)]  # the model's results use prefix "out": rename
     model_res = [[pre + k[len("out"):], v] for k, v in m["results"]]
     if model_res != want_named:
         d.append("model results are not positional (model bug?)")
-    if "B_results" in obs and obs["B_results"] != model_res:
-        d.append(f"enum_results {obs['B_results'][:8]}… != model {model_res[:8]}…")
+
+    def res_diff(what, got, want):
+        if got != want:
+            notes[f"{what} spelling differs"] = notes.get(f"{what} spelling differs", 0) + (
+                [v for _, v in got] == [v for _, v in want])
+        if [v for _, v in got] != [v for _, v in want] or _canon([k for k, _ in got]) != _canon([k for k, _ in want]):
+            d.append(f"{what} {got[:8]}… != model {want[:8]}…")
+
+    if "B_results" in obs:
+        res_diff("enum_results", obs["B_results"], model_res)
     if "C_results" in obs:
-        if obs["C_results"] != [[k, v] for k, v in m["results"]]:
-            d.append(f"subgraph()._results {obs['C_results'][:8]}… != model {m['results'][:8]}…")
+        res_diff("subgraph()._results", obs["C_results"], [[k, v] for k, v in m["results"]])
         if obs.get("sub_arg_order") != m["tys"]:
             d.append(f"subgraph() argument types by position {obs.get('sub_arg_order', [])[:14]}… != model {m['tys'][:14]}…")
         if not obs.get("C_arguments_same"):
@@ -313,15 +331,27 @@ def run_dummy_case(env, case):
     return obs
 
 
-def compare_dummy(case, obs, m):
+def compare_dummy(case, obs, m, notes=None):
+    """types, order, counts and wiring exactly; names up to a consistent renaming (spelling -> notes)."""
     if m is None or "error" in m:
         return [f"driver: {m}"]
     d = []
-    for k in ("name", "inputs", "outputs", "valueInfos"):
-        if obs[k] != m[k]:
-            d.append(f"{k}: {str(obs[k])[:160]} != model {str(m[k])[:160]}")
-    if obs["nodes"] != [["Identity", [a], [b]] for a, b in m["nodes"]]:
-        d.append(f"nodes: {str(obs['nodes'])[:160]} != model Identity{str(m['nodes'])[:160]}")
+    notes = {} if notes is None else notes
+
+    def canon(o):
+        t = {}
+        return {"inputs": [[c, ty] for c, (_, ty) in zip(_canon([x[0] for x in o["inputs"]], t), o["inputs"])],
+                "valueInfos": [[c, ty] for c, (_, ty) in zip(_canon([x[0] for x in o["valueInfos"]], t), o["valueInfos"])],
+                "outputs": [[c, ty] for c, (_, ty) in zip(_canon([x[0] for x in o["outputs"]], t), o["outputs"])],
+                "nodes": [[k, _canon(a, t), _canon(b, t)] for k, a, b in o["nodes"]]}
+
+    mm = dict(m, nodes=[["Identity", [a], [b]] for a, b in m["nodes"]])
+    if any(obs[k] != mm[k] for k in ("name", "inputs", "outputs", "valueInfos", "nodes")):
+        notes["dummy spelling differs"] = notes.get("dummy spelling differs", 0) + 1
+    co, cm = canon(obs), canon(mm)
+    for k in ("inputs", "outputs", "valueInfos", "nodes"):
+        if co[k] != cm[k]:
+            d.append(f"{k}: {str(obs[k])[:160]} != model {str(mm[k])[:160]}")
     if obs["initializers"]:
         d.append("the dummy has initializers")
     return d
@@ -356,7 +386,7 @@ def run_dummy(ck, env, P):
         if obs["calls"] != 1:  # model-free: making what inference sees must not run the callback again
             ck.failure(f"subgraph:names:recalled-after:dummy:count={obs['calls']}",
                        f"callback invoked {obs['calls']} times after subgraph() + _make_dummy_subgraph", {"kind": "dummy", "case": case})
-        d = compare_dummy(case, obs, m)
+        d = compare_dummy(case, obs, m, stats.setdefault("notes", {}))
         if d:
             stats["mismatches"] += 1
             if stats["mismatches"] <= 3:
@@ -406,7 +436,7 @@ def run(ck, env):
         for key, what in judge(case, obs):
             ck.failure(key, what, {"kind": "names", "case": case})
         if m is not None:
-            d = compare(case, obs, m)
+            d = compare(case, obs, m, stats.setdefault("notes", {}))
             if d:
                 stats["mismatches"] += 1
                 if stats["mismatches"] <= 3:
